@@ -1,5 +1,6 @@
 import EosProofs.Lemmas.MicroLegal
 import EosProofs.Lemmas.MicroAssembly
+import EosProofs.Lemmas.MicroExec
 /-! # C01, layer 2 — the message handlers of the calculation service keep the attribute cache coherent
 
 `EosProofs/Props/C01.lean` (layer 1) shows that *any* history of reads and mutations whose removal sets are
@@ -219,5 +220,145 @@ example : observe settleW (toState (wrun settleU settleW settleS0 settleHist)) (
     World.read (evalAll settleU settleCfg specImmune specLimited (fun _ => 1)) settleShip 37 = .ok 225 ∧
     (wrun settleU settleW settleS0 settleHist).cache (1, 37) = some 225 := by
   refine ⟨by decide +kernel, by decide +kernel, by decide +kernel⟩
+
+/-! ## The compiled driver executes the `mstep` / reads of the theorems above
+
+`Driver/Micro.lean` cannot run `Micro.casc` (a function-valued cache is re-evaluated at every look-up); it runs
+the table twin `mstepT` of `EosModel/WorldMicroExec.lean`, re-packs the registers after every message
+(`compactDyn`), and reads with `readStepT`.  The differential run compares the real code's attribute caches with
+that twin after every message; the theorems below close the gap to `mstep`. -/
+
+/-- **What the driver computes for a message is the `mstep` of the theorems above.**
+(1) For every state and every message, the table step `mstepT` is `mstep` through `TState.toM` (configuration and
+registers equal, the table's look-up function equal to the model's cache: `tblFun (cascT …) = casc … (tblFun …)`,
+`visitT`, `visitAllT` alike, by induction on the fuel).
+(2) The driver's full message step `mdoT` (= `mdo` of `Driver/Micro.lean`: `mstepT`, then `compactDyn`) is `mstep`
+as well, provided the registers mention only configured items and effects of their types (`DynFin`: true of the
+empty registers the driver starts from, and of every output of `compactDyn`) and the message does (`StepFin`:
+`ItemLoaded` of a configured item, `EffectsStarted` of effects of the item's type, `EffectApplied` of such an
+effect; a new configuration still contains what the registers mention); `DynFin` is kept. -/
+theorem driver_step_refines (s : TState) (st : MStep) :
+    (mstepT u s st).toM = mstep u s.toM st ∧
+    (DynFin u s.cfg s.dyn → StepFin u s.cfg s.dyn st →
+      (mdoT u s st).toM = mstep u s.toM st ∧ DynFin u (mdoT u s st).cfg (mdoT u s st).dyn) :=
+  ⟨mstepT_toM s st, fun h ok => mdoT_toM h st ok⟩
+
+/-- ... hence along any history of such messages (no bound on its length) the driver's state is the model's. -/
+theorem driver_run_refines (steps : List MStep) (s : TState) (h : DynFin u s.cfg s.dyn)
+    (ok : RunFin u s.toM steps) :
+    (steps.foldl (mdoT u) s).toM = steps.foldl (mstep u) s.toM :=
+  (mdoT_run steps s h ok).1
+
+/-- On the configuration's items and their types' effects the re-packing changes nothing, whatever the
+registers. -/
+theorem driver_compact_id (cfg : Config) (d : Dyn) {x : Item} (hx : x ∈ cfg.items) :
+    (compactDyn u cfg d).loaded x.id = d.loaded x.id ∧
+    ∀ e ∈ effsOf u x, (compactDyn u cfg d).on x.id e = d.on x.id e ∧
+      (compactDyn u cfg d).tgts x.id e = d.tgts x.id e :=
+  ⟨compactDyn_loaded_of_mem hx, fun _ he => ⟨compactDyn_on_of_mem hx he, compactDyn_tgts_of_mem hx he⟩⟩
+
+/-- **What a public read of the driver returns is the from-scratch value.**  State satisfying the invariant
+`MInv` (cache coherent and dependency-closed for `worldGraph`, unique item ids, …), rank-well-formed universe,
+no calculation of the state divides by zero (`ErrorFree`): `readStepT` on a configured item returns what the
+reader of the from-scratch values answers (`.ok v` / `.absent` according to `spec … (y.id, a)`, the level for
+a skill's attribute 280, `.absent` without metadata), and the table it leaves is a coherent extension of the
+old one. -/
+theorem driver_read_value (hwf : rankWF u = true) {s : TState}
+    (inv : MInv (worldGraph u immune limited pen hwf) s.toM)
+    (hef : ErrorFree u immune limited pen (worldGraph u immune limited pen hwf) s.cfg s.dyn)
+    {i : Nat} {y : Item} (hy : item? s.cfg i = some y) (a : Int) :
+    (readStepT u immune limited pen s i a).2 =
+      readerOf u (spec (worldGraph u immune limited pen hwf (s.cfg, s.dyn))) y a ∧
+    (∀ n v, tblFun (readStepT u immune limited pen s i a).1.tbl n = some v →
+      spec (worldGraph u immune limited pen hwf (s.cfg, s.dyn)) n = some v) ∧
+    (∀ n v, tblFun s.tbl n = some v → tblFun (readStepT u immune limited pen s i a).1.tbl n = some v) := by
+  have hU : UniqueIds s.cfg := inv.uniq
+  have hg : Inv (worldGraph u immune limited pen hwf (s.cfg, s.dyn)) (tblFun s.tbl) := inv.good
+  obtain ⟨h1, h2⟩ := readStepT_toM hwf hU hef inv.good i a
+  have hcoh := readNode_coh hwf hU hef hg (item?_mem hy) a
+  have hc : tblFun (readStepT u immune limited pen s i a).1.tbl =
+      (readNode u immune limited pen (fuelOf u + 1) s.cfg s.dyn (tblFun s.tbl) y a).1 := by
+    have := congrArg MState.cache h1
+    simp only [readStep, TState.toM, hy] at this
+    exact this
+  refine ⟨?_, ?_, ?_⟩
+  · rw [h2]
+    simp only [readStep, TState.toM, hy]
+    exact readNode_value hwf hU hef hg (item?_mem hy) a
+  · rw [hc]; exact hcoh.1
+  · rw [hc]; exact hcoh.2
+
+/- Full statement (not provable, see `ResistSrcOK` and the counter-example `gapU` in `Lemmas/MicroExec.lean`):
+with the hypotheses of `driver_read_value` the driver's read is `wstep … (.read S)` for a set `S` satisfying
+`WStepOK … (.read S)`.  `get_modifications` (and the model) read the resistance attribute of a projected
+modifier only after its source attribute had a value, while `Micro.deps` lists it unconditionally. -/
+/-- **A public read of the driver is a legal read event of the histories above** (`WStepOK … (.read S)`, i.e.
+`Machine.Legal`), under the additional hypothesis `ResistSrcOK`: whenever the source attribute of a resisted
+affector spec reads as absent, the resistance attribute has no value either. -/
+theorem driver_read_refines_partial (hwf : rankWF u = true) {s : TState}
+    (inv : MInv (worldGraph u immune limited pen hwf) s.toM)
+    (hef : ErrorFree u immune limited pen (worldGraph u immune limited pen hwf) s.cfg s.dyn)
+    (hrs : ResistSrcOK u s.cfg s.dyn (spec (worldGraph u immune limited pen hwf (s.cfg, s.dyn))))
+    (i : Nat) (a : Int) :
+    ∃ S : Node → Bool, WStepOK u (worldGraph u immune limited pen hwf) s.toM (.read S) ∧
+      (readStepT u immune limited pen s i a).1.toM = wstep u (worldGraph u immune limited pen hwf) s.toM (.read S) := by
+  have hU : UniqueIds s.cfg := inv.uniq
+  have hg : Inv (worldGraph u immune limited pen hwf (s.cfg, s.dyn)) (tblFun s.tbl) := inv.good
+  rw [(readStepT_toM hwf hU hef inv.good i a).1]
+  cases hy : item? s.cfg i with
+  | none =>
+    refine ⟨fun _ => false, ?_, ?_⟩
+    · intro n hn; cases hn
+    · simp only [readStep, TState.toM, hy, wstep]
+      rfl
+  | some y =>
+    obtain ⟨S, hl, hc⟩ := readNode_legal_partial hwf hU hef hrs hg (item?_mem hy) a
+    refine ⟨S, hl, ?_⟩
+    simp only [readStep, TState.toM, hy, wstep]
+    rw [hc]
+
+/-! Non-vacuity: in the one-ship world `tinyS` with `(ship, 2)` cached, `EffectsStarted` of effect 100 is a
+message of the form `StepFin` on registers of the form `DynFin`; the driver's step is the model's, which
+force-recalculates `(ship, 2)`: the entry is gone from the driver's table. -/
+
+example : DynFin tinyU tinyS.cfg tinyS.dyn ∧ StepFin tinyU tinyS.cfg tinyS.dyn (.start 0 [100]) ∧
+    tblFun [((0, 2), (7 : Rat))] (0, 2) = some 7 ∧
+    tblFun (mdoT tinyU ⟨tinyS.cfg, tinyS.dyn, [((0, 2), 7)]⟩ (.start 0 [100])).tbl (0, 2) = none := by
+  have hD : DynFin tinyU tinyS.cfg tinyS.dyn := by
+    refine ⟨fun i h => ⟨_, List.mem_cons_self, ?_⟩, fun i e h => (by cases h), fun i e h => absurd rfl h⟩
+    have : i = 0 := by simpa [tinyS] using h
+    exact this.symm
+  have hS : StepFin tinyU tinyS.cfg tinyS.dyn (.start 0 [100]) := by
+    intro e he
+    rw [List.mem_singleton.1 he]
+    exact ⟨_, List.mem_cons_self, rfl, by decide⟩
+  refine ⟨hD, hS, by decide, ?_⟩
+  have h := congrArg MState.cache
+    ((driver_step_refines (u := tinyU) ⟨tinyS.cfg, tinyS.dyn, [((0, 2), 7)]⟩ (.start 0 [100])).2 hD hS).1
+  have hK : ∀ x, tblFun [((0, 2), (7 : Rat))] x ≠ none → HasMeta tinyU x := by
+    intro x hx
+    by_cases hx2 : x = (0, 2)
+    · rw [hx2]; unfold HasMeta; decide
+    · exact absurd (by simp [tblFun, Ne.symm hx2]) hx
+  show (mdoT tinyU ⟨tinyS.cfg, tinyS.dyn, [((0, 2), 7)]⟩ (.start 0 [100])).toM.cache (0, 2) = none
+  rw [h]
+  exact (cascade_closed tinyS.cfg (setOn tinyS.dyn 0 [100] true) (by decide) (by unfold UniqueAttrs; decide) _ hK
+    _).2.1 (0, 2) (by decide)
+
+/-! Non-vacuity of the read theorems: the two-item world of `Lemmas/MicroAssembly.lean` before any effect
+runs (`settleS0` with a table for the cache) satisfies their hypotheses; the read of the ship's attribute 37
+returns its base value. -/
+
+example : (readStepT settleU specImmune specLimited (fun _ => 1) ⟨settleCfg, settleD0, []⟩ 1 37).2 = .ok 100 ∧
+    ∃ S, WStepOK settleU settleW (TState.toM ⟨settleCfg, settleD0, []⟩) (.read S) ∧
+      (readStepT settleU specImmune specLimited (fun _ => 1) ⟨settleCfg, settleD0, []⟩ 1 37).1.toM =
+        wstep settleU settleW (TState.toM ⟨settleCfg, settleD0, []⟩) (.read S) := by
+  refine ⟨by decide +kernel, driver_read_refines_partial (s := ⟨settleCfg, settleD0, []⟩) (by decide)
+    ⟨good_init _ _, settle_wf.2.2.1, settle_wf.2.2.2.1, settle_wf.2.2.2.2⟩ (by unfold ErrorFree; decide +kernel)
+    ?_ 1 37⟩
+  intro x _ tx _ attr sp hsp c r hr
+  have he := (running_mem (specsOn_mem hsp).2.1).1
+  simp only [settleU, List.mem_cons, List.not_mem_nil, or_false] at he
+  rcases he with he | he <;> rw [he] at hr <;> cases hr
 
 end Eos.C01World
